@@ -123,6 +123,10 @@ private:
             }
         }
 
+        // The probe shift was only needed to tell the two roots apart:
+        // put the operator back to the shift given by the user
+        m_op.set_shift(m_sigmar, m_sigmai);
+
         Base::sort_ritzpair(sort_rule);
     }
 
